@@ -480,4 +480,15 @@ func init() {
 		Variant{Name: "benign: key chosen first, stored once (C13 view)", Property: "C13", File: refl, Benign: true,
 			Old: "\t\tif matched && key != newKey {\n\t\t\tnewIndexed[newKey] = value\n\t\t} else {\n\t\t\tnewIndexed[key] = value\n\t\t}\n", New: "\t\ttarget := key\n\t\tif matched && key != newKey {\n\t\t\ttarget = newKey\n\t\t}\n\t\tnewIndexed[target] = value\n"},
 	)
+	// ---- re-entrant lock acquisition (O8.6 / O10.6 / O20.6)
+	addVariants(
+		Variant{Name: "addLocalShard logs through a method that takes the same lock", Property: "C08", File: shm,
+			Old: "\tkey := ClusterShardIDtoShortString(shard)\n\tnow := time.Now()\n\tsm.localShards[key] = ShardInfo{ID: shard, Created: now}\n", New: "\tkey := ClusterShardIDtoShortString(shard)\n\tnow := time.Now()\n\tif sm.IsLocalShard(shard) {\n\t\tsm.logger.Info(\"re-registering shard\")\n\t}\n\tsm.localShards[key] = ShardInfo{ID: shard, Created: now}\n", Expect: "O8.6"},
+		Variant{Name: "onClose unregisters synchronously under the table lock", Property: "C10", File: mmm,
+			Old: "\tfor _, v := range m.muxes {\n\t\tv.Close()\n\t}\n", New: "\tfor k, v := range m.muxes {\n\t\tv.Close()\n\t\tm.unregisterMux(k)\n\t}\n", Expect: "O10.6"},
+		Variant{Name: "observer prints itself while holding its lock", Property: "C20", File: obs,
+			Old: "\t\tnewSize := min((int(idx)+1)*9, math.MaxInt32) / 8\n", New: "\t\tnewSize := min((int(idx)+1)*9, math.MaxInt32) / 8\n\t\tif newSize > 1<<20 {\n\t\t\ts.logger.Warn(\"large observer table\", tag.NewStringTag(\"active\", s.PrintActiveStreams()))\n\t\t}\n", Expect: "O20.6"},
+		Variant{Name: "benign: addLocalShard logs the key under the lock", Property: "C08", File: shm, Benign: true,
+			Old: "\tkey := ClusterShardIDtoShortString(shard)\n\tnow := time.Now()\n\tsm.localShards[key] = ShardInfo{ID: shard, Created: now}\n", New: "\tkey := ClusterShardIDtoShortString(shard)\n\tnow := time.Now()\n\tsm.logger.Debug(\"registering shard \" + key)\n\tsm.localShards[key] = ShardInfo{ID: shard, Created: now}\n"},
+	)
 }
